@@ -183,14 +183,20 @@ def optMapM {α β} (f : α → Option β) : List α → Option (List β)
 
 /-- the value an argument key `x` of the FunctionCall entry keyed `k` holds when that entry runs (`pre` = the
     entries written before it): the value before the step when no earlier entry writes `x` in loop 1 (or `x` is
-    the entry's own key, which nothing else may write), the constant when the one earlier writer is a `Constant`;
-    `none` = not judged -/
-def argValOf (k : String) (pre : List (String × PEntry)) (before : Obj) (x : String) : Option Json :=
+    the entry's own key, which nothing else may write), the constant when the one earlier writer is a `Constant`,
+    the final value when all writers of the key come earlier; `none` = not judged -/
+def argValOf (k : String) (m pre : List (String × PEntry)) (before after : Obj) (x : String) : Option Json :=
   if x == k then some (getD x before)
   else match (keyed x pre).filter PEntry.isWriter1 with
     | [] => some (getD x before)
     | [.const v] => some v
-    | _ => none
+    | _ =>
+      -- several earlier writers, or a FunctionCall / `._mapper` one: when nothing writes the key any more after this
+      -- entry ran (no later loop-1 writer, no move onto it, no Deleted; `version` is rewritten by the caller), the
+      -- value the function saw is the value the key has at the end
+      if x != "version"
+          && ((keyed x m).filter PEntry.isWriter1).length == ((keyed x pre).filter PEntry.isWriter1).length
+          && (keyed x m).all PEntry.isWriter1 then some (getD x after) else none
 
 def entryViolations (m pre : List (String × PEntry)) (before after : Obj) (k : String) (e : PEntry) : List String :=
   match e with
@@ -210,7 +216,7 @@ def entryViolations (m pre : List (String × PEntry)) (before after : Obj) (k : 
       else []
   | .fn g args =>
     if (keyed k m).length == 1 then
-      match optMapM (argValOf k pre before) (if args.isEmpty then [k] else args) with
+      match optMapM (argValOf k m pre before after) (if args.isEmpty then [k] else args) with
       | some vals =>
         match g vals with
         | .ok r => if optBeq (get k after) (some r) then [] else [s!"function:{k}-wrong-value"]
